@@ -1089,6 +1089,16 @@ def run_case(ctx, i):
           except StopIteration:
             c['phase_compares_without_proposal'] += 1
             return []
+          except Exception as e:  # pylint: disable=broad-except
+            if not lib_raised(e):
+              raise
+            # As for the uninterrupted run (see ASSUMPTIONS): how an Evolution
+            # reproduces is not part of the compared state; the recovered one
+            # reproduces anew where the live one still had children of its
+            # latest batch to hand out.
+            c['phase_probes_ended_by_library_error'] += 1
+            c[f'phase_probes_ended_by_library_error:{cfg.family}:{type(e).__name__}'] += 1
+            return []
           finally:
             ctx.label = None
           if got == exp:
